@@ -62,6 +62,10 @@ CLAIMED = {
             'element on that path; solve() resets modified_ and clears the modified set only after do_solve(); visit stamps are compared with the current counter.',
             'Does not decide that the solved values are equal; pre-solve setters (set_sharing_policy, unshare, set_concurrency_limit, Variable::initialize) are listed exceptions.',
             'DESIGN.md §3 C17'),
+    'C08': ('container discipline (FIFO), truth table of the match predicate by exhaustive evaluation of its expression tree, call-site argument rule, finite-state abstract exploration',
+            'Both mailbox queues are inserted only at the back and searched begin()->end(); the match predicate extracted from the source is evaluated on all 32 assignments of its five atoms against type==wanted && (!mine||mine(..)) && (!theirs||theirs(..)) and its argument order is checked; the three consuming call sites pass remove_matching=true and the two probing ones false, and a found element is erased iff that flag; every path of isend/irecv either matches or pushes exactly once and hands that comm to the observer; copy_data copies at most once and at most min(src size, dst capacity); finish leaves the mailbox before any answer (all paths, abstractly explored).',
+            'The network model timing and user-provided match/copy functions are not decided.',
+            'DESIGN.md §3 C08'),
 }
 
 NOT_APPLICABLE = {
